@@ -19,7 +19,7 @@ META = dict(technique='Coq proof (invariant over op sequences of the solver mach
 
 _generate = SC.make_generate(**dict(allow_vector=True))
 _oracle = SC.oracle_c01
-generate, run_impl, oracle = SC.with_extras(_generate, SC.run_impl, _oracle, {"ensemble": (0.12, SC.gen_ensemble, SC.run_ensemble, SC.oracle_ensemble)})
+generate, run_impl, oracle = SC.with_extras(_generate, SC.run_impl, _oracle, {"ensemble": (0.12, SC.gen_ensemble, SC.run_ensemble, SC.oracle_ensemble), "wrapper": (0.08, SC.gen_wrapper, SC.run_wrapper, SC.oracle_wrapper)})
 coq_preamble = SC.coq_preamble
 coq_terms = SC.make_coq_terms('(mk_mask true true false false false false true false)')
 coq_debug = SC.coq_debug
